@@ -113,12 +113,19 @@ pub fn run_case<G: Cv>(env: &Env<G>, c: &Case, seed: u64) -> Out {
     };
     let pr = match guarded(|| program::prove::<G>(&c.prog, &env.pc, &env.bp, seed, "c02", dev.clone())) {
         Ok(p) => p,
-        Err(m) => return Out::Bad { expected: "prove returns".into(), observed: format!("prove panicked: {}", m) },
+        // a prover that panics emits no proof: nothing can be accepted (completeness and panics on
+        // honest runs are C01's business)
+        Err(m) => return Out::NoProof(format!("prove panicked: {}", m)),
     };
     let bytes = match &pr.proof {
         Ok(b) => b.clone(),
         Err(e) => return Out::NoProof(e.clone()),
     };
+    if !pr.ctx.problems.is_empty() {
+        // the prover did not build the constraint system the reference model holds (handles or
+        // gate counts differ): C16's business; the reference cannot judge this witness
+        return Out::NoProof(format!("precondition: prover and reference model diverge: {}", pr.ctx.problems[0]));
+    }
     let rc = &pr.ctx.refcs;
     let vc = rc.violated_constraints(&rc.actual);
     let vg = rc.violated_gates(&rc.actual);
@@ -133,7 +140,8 @@ pub fn run_case<G: Cv>(env: &Env<G>, c: &Case, seed: u64) -> Out {
     };
     let vr = match guarded(|| program::verify::<G>(&c.prog, &env.pc, &env.bp, seed, vdev, &pr.commitments, &proof, program::LABEL)) {
         Ok(v) => v,
-        Err(m) => return Out::Bad { expected: "verify returns".into(), observed: format!("verify panicked: {}", m) },
+        // a panic is not an acceptance (hostile-input panics are C08's business)
+        Err(m) => return Out::NoProof(format!("verify panicked: {}", m)),
     };
     // the two roles must have built the same statement
     if vr.ctx.refcs.cons != rc.cons {
